@@ -165,9 +165,23 @@ def compare_runs(spec, run0, run1, t0, fit, lin, vmap, cmap, fails, info, kind, 
         ea = (lin[0][0] * a[0] + lin[0][1] * a[1], lin[1][0] * a[0] + lin[1][1] * a[1])
         err = max(abs(ea[0] - b[0]), abs(ea[1] - b[1]))
         info["count"]["pairs_" + cls] += 1
-        if err > C_TOL[cls] and (worst is None or err > worst[0]):
+        # the transformed tissue is handed over in floating point: its coordinates carry a rounding of 1 ulp of their magnitude, which
+        # turns the direction of a chord of length c by up to ~2 ulp(|coordinate|) / c whatever forsys does (far translations, tiny units)
+        tol_c = C_TOL[cls]
+        try:
+            vm_inv = {o: nw for nw, o in vmap.items()} if vmap else None
+            pj = run1.pos[vm_inv[j] if vm_inv else j]
+            other = ids[1] if ids[0] == j else ids[-2]
+            po = run1.pos[vm_inv[other] if vm_inv else other]
+            chord = math.hypot(pj[0] - po[0], pj[1] - po[1])
+            mag = max(abs(pj[0]), abs(pj[1]), abs(po[0]), abs(po[1]))
+            if chord > 0:
+                tol_c = max(tol_c, 8 * 2.220446049250313e-16 * mag / chord)
+        except Exception:      # noqa
+            pass
+        if err > tol_c and (worst is None or err > worst[0]):
             worst = (err, cls, f"junction {j}, interface {path[:3]}..{path[-1]} ({len(path)} points, {cls}): pair ({a[0]:.9g}, {a[1]:.9g}) "
-                               f"should map to ({ea[0]:.9g}, {ea[1]:.9g}), found ({b[0]:.9g}, {b[1]:.9g}); |diff| {err:.3g} > {C_TOL[cls]:g}")
+                               f"should map to ({ea[0]:.9g}, {ea[1]:.9g}), found ({b[0]:.9g}, {b[1]:.9g}); |diff| {err:.3g} > {tol_c:.3g}")
     if worst is not None:
         if worst[1] == "flat" and worst[0] > 0.05:
             emit(f"coefficient-pairs:flat-fit-breakdown:{fit}", worst[2] + f"  [{kind}]")     # e.g. fitted centre on the line in one presentation
